@@ -142,12 +142,12 @@ namespace Givaro
 
 		Element& init (Element& x, const float &y) const
 		{
-			return x = static_cast<unsigned char>(y) & 1;
+			return x = static_cast<int>(std::fmod(y, 2.0f)) & 1;
 		}
 
 		Element& init (Element& x, const double &y) const
 		{
-			return x = static_cast<unsigned char>(y) & 1;
+			return x = static_cast<int>(std::fmod(y, 2.0)) & 1;
 		}
 
 		Element& init (Element& x, const Integer& y) const
